@@ -484,12 +484,26 @@ mod h {
         kani::assume(m <= 4);
         (m * align, align)
     }
+    /// smaller layout domain for the harnesses with four symbolic layouts (CBMC cost)
+    fn any_layout_small() -> (usize, usize) {
+        let sh: u8 = kani::any();
+        kani::assume(sh <= 3);
+        let align = 1usize << sh;
+        let m: usize = kani::any();
+        kani::assume(m <= 2);
+        (m * align, align)
+    }
     struct Fields {
         f: [TyRef; 4],
         lay: [(usize, usize); 4],
     }
     fn field_world(pool: &mut Pool) -> (Fields, Rt) {
-        let lay = [any_layout(), any_layout(), any_layout(), any_layout()];
+        field_world_with(pool, [any_layout(), any_layout(), any_layout(), (0, 1)])
+    }
+    fn field_world_small(pool: &mut Pool) -> (Fields, Rt) {
+        field_world_with(pool, [any_layout_small(), any_layout_small(), any_layout_small(), any_layout_small()])
+    }
+    fn field_world_with(pool: &mut Pool, lay: [(usize, usize); 4]) -> (Fields, Rt) {
         let ids = [std::any::TypeId::of::<u8>(), std::any::TypeId::of::<u16>(), std::any::TypeId::of::<u32>(), std::any::TypeId::of::<u64>()];
         let f = [pool.push(Ty::Runtime(ids[0])), pool.push(Ty::Runtime(ids[1])), pool.push(Ty::Runtime(ids[2])), pool.push(Ty::Runtime(ids[3]))];
         pool.assume_layout(f[0], lay[0].0, lay[0].1);
@@ -593,7 +607,7 @@ mod h {
     #[kani::unwind(34)]
     fn c02_k1_enum_offsets() {
         let mut pool = base_pool();
-        let (w, r) = field_world(&mut pool);
+        let (w, r) = field_world_small(&mut pool);
         let variants = vec![(Identifier(200), vec![w.f[3]]), (Identifier(201), vec![w.f[0], w.f[1], w.f[2]])];
         let en = pool.push(Ty::Enum(variants));
         let mut ti = TypeInfo { ty_pool: pool };
@@ -628,7 +642,7 @@ mod h {
     #[kani::unwind(34)]
     fn c02_k1_nested_offsets() {
         let mut pool = base_pool();
-        let (w, r) = field_world(&mut pool);
+        let (w, r) = field_world_small(&mut pool);
         let inner = pool.push(Ty::Record(vec![(Identifier(100), w.f[0]), (Identifier(101), w.f[1]), (Identifier(102), w.f[2])]));
         let outer = pool.push(Ty::Record(vec![(Identifier(300), w.f[3]), (Identifier(301), inner)]));
         let (off, end, align) = oracle(0, &w);
